@@ -32,7 +32,7 @@ TEXT = {
          'Bounded configuration k <= 8 players; histories unbounded by induction. Unguarded variants under their documented precondition.'),
 }
 # properties whose checks have been run to completion on the unchanged tree (exit 0); extend as checks are validated
-CLAIMED = ['C09', 'C11', 'C12', 'C13', 'C15', 'C16', 'C18', 'C20']
+CLAIMED = ['C09', 'C11', 'C12', 'C13', 'C14', 'C15', 'C16', 'C18', 'C20']
 
 def main():
     props = [json.loads(l) for l in open(os.path.join(here, 'properties.jsonl'))]
